@@ -1214,8 +1214,11 @@ class Channel(ClosingContextManager):
         self.logger.log(level, "[chan " + self._name + "] " + msg, *args)
 
     def _event_pending(self):
-        self.event.clear()
-        self.event_ready = False
+        with self.lock:
+            self.event_ready = False
+            # once closed, the event stays set so that nobody waits on it
+            if not self.closed:
+                self.event.clear()
 
     def _wait_for_event(self):
         self.event.wait()
